@@ -3,8 +3,10 @@ package harness
 import (
 	"bytes"
 	"context"
+	"crypto/hmac"
 	"crypto/sha1"
 	"crypto/sha256"
+	"crypto/tls"
 	"encoding/base64"
 	"encoding/xml"
 	"fmt"
@@ -18,6 +20,7 @@ import (
 	"mellium.im/xmpp"
 	"mellium.im/xmpp/jid"
 	"verif.sim/simrt"
+	"verif.sim/simrt/simnet"
 )
 
 // C03 — the authenticated bit is only set by a completed, accepted SASL exchange.
@@ -112,7 +115,10 @@ func runC03(rc *RC) {
 
 func c03Initiator(rc *RC) {
 	ch := rc.Ch
-	all := []sasl.Mechanism{sasl.Plain, sasl.ScramSha1, sasl.ScramSha256}
+	all := []sasl.Mechanism{sasl.Plain, sasl.ScramSha1, sasl.ScramSha256, sasl.ScramSha1Plus, sasl.ScramSha256Plus}
+	// channel binding: 0 the transport reports no TLS state, 1 both ends see the same tls-unique value,
+	// 2 the server sees another one (somebody sits in between)
+	tlsMode := ch.Int("workload", 3)
 	var prefs []sasl.Mechanism
 	var mlog []mechCall
 	for _, i := range ch.Perm("workload", len(all)) {
@@ -121,7 +127,7 @@ func c03Initiator(rc *RC) {
 		}
 	}
 	// what the scripted server advertises
-	names := []string{"PLAIN", "SCRAM-SHA-1", "SCRAM-SHA-256", "X-UNKNOWN", "SCRAM-SHA-512"}
+	names := []string{"PLAIN", "SCRAM-SHA-1", "SCRAM-SHA-256", "SCRAM-SHA-1-PLUS", "SCRAM-SHA-256-PLUS", "X-UNKNOWN", "SCRAM-SHA-512"}
 	var adv []string
 	for _, n := range names {
 		if ch.Chance("script", 1, 2) {
@@ -138,7 +144,7 @@ func c03Initiator(rc *RC) {
 	for _, p := range prefs {
 		prefNames = append(prefNames, p.Name)
 	}
-	rc.Describe("initiator prefs=%v advertised=%v plan=%v afterFinal=%d", prefNames, adv, plan, afterFinal)
+	rc.Describe("initiator tls=%d prefs=%v advertised=%v plan=%v afterFinal=%d", tlsMode, prefNames, adv, plan, afterFinal)
 	rc.CaseKey = fmt.Sprint("init", prefNames, adv, plan[:3])
 	cc, sc := rc.Net.Pipe("cli", "srv")
 	ctx, cancel := context.WithTimeout(context.Background(), 20*time.Second)
@@ -150,7 +156,11 @@ func c03Initiator(rc *RC) {
 	done := false
 	rc.Spawn("sut", func() {
 		f := wrapFeature(rc, xmpp.SASL("", "pass", prefs...), &steps)
-		sess, err = xmpp.NewSession(ctx, origin.Domain(), origin, cc, xmpp.Secure, xmpp.NewNegotiator(func(*xmpp.Session, *xmpp.StreamConfig) xmpp.StreamConfig {
+		var rw io.ReadWriter = cc
+		if tlsMode != 0 {
+			rw = tlsStateConn{cc, tls.ConnectionState{Version: tls.VersionTLS12, HandshakeComplete: true, TLSUnique: []byte("unique-of-this-channel")}}
+		}
+		sess, err = xmpp.NewSession(ctx, origin.Domain(), origin, rw, xmpp.Secure, xmpp.NewNegotiator(func(*xmpp.Session, *xmpp.StreamConfig) xmpp.StreamConfig {
 			return xmpp.StreamConfig{Features: []xmpp.StreamFeature{f}}
 		}))
 		done = true
@@ -159,10 +169,12 @@ func c03Initiator(rc *RC) {
 	successAt := -1 // scheduler step at which a genuine <success/> was written
 	var wireMech string
 	var sent []string
-	hashOf := map[string]func() hash.Hash{"SCRAM-SHA-1": sha1.New, "SCRAM-SHA-256": sha256.New}
+	hashOf := map[string]func() hash.Hash{"SCRAM-SHA-1": sha1.New, "SCRAM-SHA-256": sha256.New, "SCRAM-SHA-1-PLUS": sha1.New, "SCRAM-SHA-256-PLUS": sha256.New}
+	bindingOK := true // false once the server ran a -PLUS mechanism against a channel the client is not on
 	rc.Spawn("script", func() {
 		d := xml.NewDecoder(sc)
 		var srv *sasl.Negotiator
+		var srvStep func([]byte) (bool, []byte, error)
 		replies := 0
 		pendingFinal := false
 		finished := false
@@ -222,13 +234,30 @@ func c03Initiator(rc *RC) {
 					m = sasl.ScramSha1
 				case "SCRAM-SHA-256":
 					m = sasl.ScramSha256
+				case "SCRAM-SHA-1-PLUS":
+					m = sasl.ScramSha1Plus
+				case "SCRAM-SHA-256-PLUS":
+					m = sasl.ScramSha256Plus
 				default:
 					fmt.Fprintf(sc, `<failure xmlns='%s'><invalid-mechanism/></failure>`, nsSASL)
 					sent = append(sent, "failure(invalid-mechanism)")
 					continue
 				}
 				h := hashOf[wireMech]
-				srv = sasl.NewServer(m, func(*sasl.Negotiator) bool { return true }, sasl.SaltedCredentials(func(user, ident []byte, mech string) ([]byte, []byte, int64, error) {
+				srvTLS := tls.ConnectionState{Version: tls.VersionTLS12, HandshakeComplete: true, TLSUnique: []byte("unique-of-this-channel")}
+				if tlsMode == 2 {
+					srvTLS.TLSUnique = []byte("unique-of-another-channel")
+					if strings.HasSuffix(wireMech, "-PLUS") {
+						bindingOK = false
+					}
+				}
+				if strings.HasSuffix(wireMech, "-PLUS") {
+					// mellium.im/sasl has no server side for the -PLUS mechanisms: a minimal RFC 5802 server with tls-unique binding
+					srv, srvStep = &sasl.Negotiator{}, scramPlusServer(h, srvTLS.TLSUnique, "pass")
+					break
+				}
+				srvStep = nil
+				srv = sasl.NewServer(m, func(*sasl.Negotiator) bool { return true }, sasl.TLSState(srvTLS), sasl.SaltedCredentials(func(user, ident []byte, mech string) ([]byte, []byte, int64, error) {
 					salt := []byte("salt-" + string(user))
 					return salt, pbkdf2.Key([]byte("pass"), salt, 16, h().Size(), h), 16, nil
 				}))
@@ -263,6 +292,10 @@ func c03Initiator(rc *RC) {
 						serr = fmt.Errorf("server negotiator: %v", r)
 					}
 				}()
+				if srvStep != nil {
+					more, resp, serr = srvStep(payload)
+					return
+				}
 				more, resp, serr = srv.Step(payload)
 			}()
 			mut := "none"
@@ -360,6 +393,15 @@ func c03Initiator(rc *RC) {
 		if successAt < 0 || successAt > gstep.Step {
 			rc.Failf("C03.c1", "authn-without-success:"+wireMech, "initiator marked authenticated (SASL step returned at scheduler step %d) but the server had not sent <success/> by then (success at %d); server sent %v", gstep.Step, successAt, sent)
 		}
+	}
+	if strings.HasSuffix(wireMech, "-PLUS") {
+		rc.S.Probes[fmt.Sprintf("plus-attempt:tls=%d:authn=%v", tlsMode, granted)]++
+	}
+	if granted && strings.HasSuffix(wireMech, "-PLUS") {
+		// a completed channel-binding mechanism presupposes a channel: never without TLS state, and a genuine
+		// success only from a server on the same channel
+		rc.Check("C03.c1", "plus-without-tls-state", tlsMode != 0, "initiator authenticated with %s although its transport reports no TLS state", wireMech)
+		rc.Check("C03.c1", "plus-binding-mismatch-accepted", bindingOK || successAt < 0 || successAt > gstep.Step, "initiator authenticated with %s although the server verified against another channel's tls-unique; server sent %v", wireMech, sent)
 	}
 	if wireMech != "" {
 		rc.Evals["C03.c3"]++
@@ -540,5 +582,94 @@ func c03Receiver(rc *RC) {
 			named = named || m.Name == lastAuthMech
 		}
 		rc.Check("C03.c3", "authn-under-unoffered-mechanism-name", named, "receiver authenticated an exchange that the peer started with <auth mechanism=%q/>, which was not offered (offered %d mechanisms); client sent %v", lastAuthMech, len(offered), sentLog)
+	}
+}
+
+// tlsStateConn is a transport that reports a TLS connection state (what the
+// session hands to channel-binding mechanisms) without running TLS.
+type tlsStateConn struct {
+	*simnet.Conn
+	cs tls.ConnectionState
+}
+
+func (c tlsStateConn) ConnectionState() tls.ConnectionState { return c.cs }
+
+// scramPlusServer is the receiving side of SCRAM-*-PLUS with tls-unique channel
+// binding (RFC 5802 / RFC 5929), as far as the initiator under test needs it:
+// it verifies the binding data and the client proof and signs its final message.
+func scramPlusServer(h func() hash.Hash, tlsUnique []byte, password string) func([]byte) (bool, []byte, error) {
+	step := 0
+	var gs2, bare, first, salted []byte
+	var nonce string
+	mac := func(key, msg []byte) []byte {
+		m := hmac.New(h, key)
+		m.Write(msg)
+		return m.Sum(nil)
+	}
+	return func(in []byte) (bool, []byte, error) {
+		step++
+		switch step {
+		case 1:
+			// p=tls-unique,[a=authzid],n=user,r=nonce
+			parts := bytes.SplitN(in, []byte(","), 3)
+			if len(parts) != 3 || string(parts[0]) != "p=tls-unique" {
+				return false, nil, fmt.Errorf("client-first without tls-unique binding: %q", in)
+			}
+			gs2 = append(append(append([]byte(nil), parts[0]...), ','), append(parts[1], ',')...)
+			bare = parts[2]
+			var user string
+			for _, f := range bytes.Split(bare, []byte(",")) {
+				if bytes.HasPrefix(f, []byte("r=")) {
+					nonce = string(f[2:])
+				}
+				if bytes.HasPrefix(f, []byte("n=")) {
+					user = string(f[2:])
+				}
+			}
+			if nonce == "" || user == "" {
+				return false, nil, fmt.Errorf("client-first incomplete: %q", in)
+			}
+			salt := []byte("salt-" + user)
+			salted = pbkdf2.Key([]byte(password), salt, 16, h().Size(), h)
+			nonce += "srvnonce"
+			first = []byte("r=" + nonce + ",s=" + base64.StdEncoding.EncodeToString(salt) + ",i=16")
+			return true, first, nil
+		case 2:
+			// c=base64(gs2 header + binding data),r=nonce,p=proof
+			i := bytes.LastIndex(in, []byte(",p="))
+			if i < 0 {
+				return false, nil, fmt.Errorf("client-final without proof: %q", in)
+			}
+			woProof := in[:i]
+			proof, err := base64.StdEncoding.DecodeString(string(in[i+3:]))
+			if err != nil {
+				return false, nil, err
+			}
+			want := "c=" + base64.StdEncoding.EncodeToString(append(append([]byte(nil), gs2...), tlsUnique...)) + ",r=" + nonce
+			if string(woProof) != want {
+				return false, nil, fmt.Errorf("channel binding or nonce mismatch: %q want %q", woProof, want)
+			}
+			authMsg := bytes.Join([][]byte{bare, first, woProof}, []byte(","))
+			clientKey := mac(salted, []byte("Client Key"))
+			hh := h()
+			hh.Write(clientKey)
+			storedKey := hh.Sum(nil)
+			sig := mac(storedKey, authMsg)
+			if len(proof) != len(sig) {
+				return false, nil, fmt.Errorf("proof length")
+			}
+			ck := make([]byte, len(sig))
+			for k := range sig {
+				ck[k] = proof[k] ^ sig[k]
+			}
+			hh = h()
+			hh.Write(ck)
+			if !bytes.Equal(hh.Sum(nil), storedKey) {
+				return false, nil, fmt.Errorf("client proof does not verify")
+			}
+			v := mac(mac(salted, []byte("Server Key")), authMsg)
+			return false, []byte("v=" + base64.StdEncoding.EncodeToString(v)), nil
+		}
+		return false, nil, fmt.Errorf("exchange already finished")
 	}
 }
